@@ -1,27 +1,33 @@
 """C19 — The daemon retries with bounded back-off and stays responsive to signals.
 
-TABLE over THIR (update equations of `backoff`, select! arms, signal registrations, Frequency mapping),
-MUSTPASS over MIR (no job completion reaches the next tick without a timer reset).  The timeline itself is run-time;
-the bound follows on paper from the equations the checker verifies.
+Decided by path exploration (vlib/absint.py) of `Loop::start`: one iteration of the loop is run for every outcome of the
+`select!`, and the rule reads off what each outcome does — which timer operation it calls with which value, what it assigns to the
+loop-carried delay, whether it leaves the loop.  Nothing depends on how the source spells it (match arms, an intermediate enum,
+renamed locals, helper functions, constants moved).  The timeline itself is run-time; the bound follows on paper from the
+equations the checker verifies.
 """
-from vlib import facts as F, thir as T
+import re
+from vlib import facts as F, thir as T, absint as A
 from vlib.report import loc_of
 
 AGENT = "bgpfu_junos_agent"
 START = AGENT + "::task::Loop::<T>::start"
 
 EXPLANATION = (
-    "C19/R1 (TABLE): the loop-carried `backoff` has exactly three definitions — initial MIN_BACKOFF; job-Ok arm: "
-    "interval.reset() then backoff = MIN_BACKOFF; job-Err arm: interval.reset_after(backoff) with the pre-update value, then "
-    "backoff = min(self.period, backoff * k) with k >= 2. MIN_BACKOFF = Duration::from_secs(60); period = "
-    "Duration::from_secs(frequency) with frequency: NonZeroU64. Hence on paper: first retry delay 60 s, afterwards "
-    "backoff <= min(period, 2*previous) <= max(60 s, period), success restores 60 s / the normal period. C19/R2 (MUSTPASS): "
-    "every CFG path from the completion of a job to the next interval.tick() passes through reset()/reset_after(). C19/R3: "
-    "the select! arms on SIGINT and SIGTERM break Ok(()), the SIGHUP arm calls reset_immediately() and continues; the three "
-    "signal(SignalKind::..) registrations are `?`-checked before the loop. C19/R4: Frequency::from(0) = OneShot and main "
-    "dispatches OneShot -> run(), Daemon(f) -> init_loop(f).start() for both targets. Not decided: signal arrival times, "
-    "tokio::time::Interval semantics (trusted), a hung job delaying signal handling (outside the property's 'while waiting')."
+    "Path exploration of Loop::start, one loop iteration per select! outcome. C19/R1: the delay passed to interval.reset_after(..) on a "
+    "failed job is the loop-carried back-off variable's value from *before* this iteration's update; that variable is initialised to a "
+    "constant equal to Duration::from_secs(60), is set back to the same constant (after interval.reset()) when a job succeeds, and is "
+    "set to min(self.period, previous * k), k >= 2, when a job fails — and is assigned nowhere else; period = Duration::from_secs(frequency), "
+    "frequency: NonZeroU64. Hence on paper: first retry delay 60 s, afterwards backoff <= min(period, 2*previous) <= max(60 s, period), "
+    "success restores 60 s / the normal period. C19/R2: every outcome in which a job ran resets the timer (reset / reset_after) before "
+    "the loop goes round. C19/R3: the outcomes of SIGINT and SIGTERM leave the loop with Ok(()); the SIGHUP outcome calls "
+    "reset_immediately() and goes round; the timer outcome spawns one job and awaits it; the three signal(SignalKind::..) registrations "
+    "happen before the loop and a failing one fails start(). C19/R4: Frequency::from(0) = OneShot, and main runs the updater once for "
+    "OneShot and init_loop(f).start() for Daemon(f), for both targets. Not decided: signal arrival times, tokio::time::Interval "
+    "semantics (trusted), a hung job delaying signal handling (outside the property's 'while waiting')."
 )
+
+SIG_KINDS = ("interrupt", "terminate", "hangup")
 
 
 def run(ctx):
@@ -29,222 +35,276 @@ def run(ctx):
     chk.explanation = EXPLANATION
     chk.assumptions += [
         "tokio::time::Interval: reset() schedules the next tick one period from now, reset_after(d) after d, reset_immediately() now",
-        "tokio::select! runs exactly the arm whose future completed",
+        "tokio::select! runs exactly the branch whose future completed; its output variant _k belongs to the k-th future of the macro",
     ]
-    t = fx.thir_body(START + "::{closure#0}::{closure#0}")
-    chk.analysed(t["def"])
-    body = T.user_body(t)
-    r1_equations(chk, fx, t, body)
-    r2_mustpass(chk, fx)
-    r3_arms(chk, fx, t, body)
+    un = START + "::{closure#0}::{closure#0}"
+    t = fx.thir_body(un)
+    chk.analysed(un)
+    it = A.Interp(fx, crates=(AGENT,), max_paths=4000, no_inline=("Updater::<T>::run", "task::handle_task"))
+    it.model_iterators = False
+    paths = it.explore(un)
+    chk.extra["paths_explored"] = len(paths)
+    chk.floor("C19 paths of Loop::start", len(paths), 6)
+    outcomes = classify(paths)
+    chk.extra["select_outcomes"] = {k: len(v) for k, v in outcomes.items()}
+    r1_equations(chk, fx, t, paths, outcomes)
+    r2_reset(chk, t, outcomes)
+    r3_outcomes(chk, fx, t, paths, outcomes)
     r4_frequency(chk, fx)
 
 
-def norm(s):
-    return s.replace(" ", "").replace("&mut", "").replace("&", "").replace("*", "")
-
-
-def stmts_of(e):
-    e = T.peel(e)
-    if e.get("k") == "Block":
-        out = list(e.get("stmts", []))
-        if e.get("expr") is not None:
-            out.append(e["expr"])
-        return out
-    return [e]
-
-
-def r1_equations(chk, fx, t, body):
-    fn = "task::Loop::start"
-    lets = [s for s in T.walk(body) if s.get("k") == "LetStmt" and T.pat_str(s["pat"]) == "backoff"]
-    if len(lets) != 1:
-        raise F.AnchorLost("Loop::start: `let mut backoff` not found")
-    init = T.peel(lets[0]["init"])
-    ok = init.get("k") == "Const" and init["def"] == AGENT + "::task::MIN_BACKOFF"
-    chk.instance("C19/R1", "initial back-off is MIN_BACKOFF", t["def"], loc_of(lets[0].get("sp")), holds=ok, key="C19/R1 %s initial-backoff" % fn)
-    mb = fx.thir_body(AGENT + "::task::MIN_BACKOFF")
-    s = norm(T.expr_str(mb["body"]))
-    chk.instance("C19/R1", "MIN_BACKOFF = Duration::from_secs(60)  (got %s)" % s, mb["def"], loc_of(mb.get("sp")),
-                 holds=s == "Duration::from_secs(60)", key="C19/R1 MIN_BACKOFF-value")
-    il = fx.thir_body(AGENT + "::task::Updater::<T>::init_loop")
-    s = norm(T.expr_str(T.user_body(il)))
-    ok = "period:Duration::from_secs(Into::into(frequency))" in s
-    it = fx.fn_item(AGENT + "::task::Updater::<T>::init_loop")
-    ok = ok and "NonZero<u64>" in it["inputs"][1]
-    chk.instance("C19/R1", "period = Duration::from_secs(frequency), frequency: NonZeroU64", il["def"], loc_of(il.get("sp")), holds=ok,
-                 key="C19/R1 period-definition")
-    # the job-result match
-    jm = [m for m in T.find(body, "Match") if "task::handle_task" in T.expr_str(m["scrut"]) and T.peel(m["scrut"]).get("k") == "Await"]
-    if len(jm) != 1:
-        raise F.AnchorLost("Loop::start: match on the job's result not found")
-    jm = jm[0]
-    assigns = [a for a in T.find(body, "Assign") if T.peel(a["lhs"]).get("name") == "backoff"] + \
-              [a for a in T.find(body, "AssignOp") if T.peel(a["lhs"]).get("name") == "backoff"]
-    in_arms = 0
-    for a in jm["arms"]:
-        p = T.pat_str(a["pat"])
-        seq = stmts_of(a["body"])
-        texts = [norm(T.expr_str(x)) for x in seq]
-        arm_assigns = [x for x in T.find(a["body"], "Assign") if T.peel(x["lhs"]).get("name") == "backoff"]
-        in_arms += len(arm_assigns)
-        if p.startswith("Result::Ok"):
-            i_reset = [i for i, x in enumerate(texts) if x.startswith("Interval::reset(interval)")]
-            i_set = [i for i, x in enumerate(texts) if x == "backoff=task::MIN_BACKOFF"]
-            chk.instance("C19/R1", "job Ok: interval.reset() (normal period restored)", t["def"], loc_of(a.get("sp")), holds=bool(i_reset),
-                         key="C19/R1 %s ok-arm-reset" % fn)
-            chk.instance("C19/R1", "job Ok: backoff = MIN_BACKOFF", t["def"], loc_of(a.get("sp")), holds=len(i_set) == 1 and len(arm_assigns) == 1,
-                         key="C19/R1 %s ok-arm-backoff" % fn)
-        elif p.startswith("Result::Err"):
-            i_after = [i for i, x in enumerate(texts) if x.startswith("Interval::reset_after(interval,")]
-            ok_arg = [i for i in i_after if texts[i] == "Interval::reset_after(interval,backoff)"]
-            i_upd = [i for i, x in enumerate(texts) if x.startswith("backoff=")]
-            chk.instance("C19/R1", "job Err: interval.reset_after(backoff)", t["def"], loc_of(a.get("sp")), holds=len(ok_arg) == 1 and len(i_after) == 1,
-                         key="C19/R1 %s err-arm-reset_after" % fn)
-            chk.instance("C19/R1", "job Err: the delay uses the pre-update back-off (reset_after before the update)", t["def"], loc_of(a.get("sp")),
-                         holds=bool(ok_arg) and bool(i_upd) and ok_arg[0] < i_upd[0], key="C19/R1 %s err-arm-order" % fn)
-            ok = False
-            detail = None
-            if len(arm_assigns) == 1:
-                rhs = T.peel(arm_assigns[0]["rhs"])
-                detail = T.expr_str(rhs)
-                if rhs.get("k") == "Call" and rhs.get("fn", "").endswith("cmp::min") or (rhs.get("k") == "Call" and rhs.get("fn", "").endswith("Ord::min")):
-                    args = [T.peel(x) for x in rhs["args"]]
-                    texts2 = [norm(T.expr_str(x)) for x in args]
-                    cap = [x for x in texts2 if x == "self.period"]
-                    grow = [x for x in args if x.get("k") == "Call" and x.get("fn", "").endswith("Mul::mul")]
-                    if cap and len(grow) == 1:
-                        margs = [T.peel(x) for x in grow[0]["args"]]
-                        names = [x.get("name") for x in margs]
-                        lits = [x.get("v") for x in margs if x.get("k") == "Lit"]
-                        ok = "backoff" in names and len(lits) == 1 and isinstance(lits[0], int) and lits[0] >= 2
-            chk.instance("C19/R1", "job Err: backoff = min(self.period, backoff * k), k >= 2 (grows, capped by the period)", t["def"],
-                         loc_of(a.get("sp")), holds=ok, detail=detail, key="C19/R1 %s err-arm-update" % fn)
-        else:
-            chk.instance("C19/R1", "job result arm %s not in {Ok, Err}" % p, t["def"], loc_of(a.get("sp")), holds=False,
-                         key="C19/R1 %s unexpected-arm" % fn)
-    chk.instance("C19/R1", "backoff is assigned only in the job-result arms (%d of %d assignments)" % (in_arms, len(assigns)), t["def"], None,
-                 holds=in_arms == len(assigns) == 2, key="C19/R1 %s stray-backoff-assignment" % fn)
-
-
-def r2_mustpass(chk, fx):
-    b = fx.user_coroutine(START)
-    chk.analysed(b.name)
-    ticks = b.calls_to("tokio::time::Interval::tick", user_only=True)
-    resets = b.calls_to("Interval::reset", "Interval::reset_after", "Interval::reset_at", user_only=True)
-    ht = b.calls_to("task::handle_task", user_only=True)
-    if len(ticks) != 1 or len(ht) != 1:
-        raise F.AnchorLost("Loop::start: tick()/handle_task sites")
-    chk.call_sites += len(ticks) + len(resets) + 1
-    reset_blocks = [c.bb for c in resets if not c.is_fn("reset_immediately")]
-    # completion of the job = the Ready edge of the poll of handle_task's future
-    done = None
-    for ap in b.await_points():
-        if ap["src"] is not None and ap["src"].bb == ht[0].bb:
-            p = ap["poll"]
-            none_t, some_t = b.switch_on(p.dest["l"], p.target)
-            done = none_t  # Poll::Ready = 0
-    if done is None:
-        raise F.AnchorLost("Loop::start: await of the job not found")
-    reach = b.reachable(done, avoid=reset_blocks)
-    chk.instance("C19/R2", "every path from job completion to the next interval.tick() resets the timer", b.name, ticks[0].loc(),
-                 holds=ticks[0].bb not in reach, key="C19/R2 task::Loop::start tick-without-reset",
-                 detail="with the default burst behaviour a long job would otherwise be followed by an immediate run")
-    # the job is awaited inside the tick arm (one job at a time)
-    chk.instance("C19/R2", "at most one job is in flight (the job is awaited in the tick arm)", b.name, ht[0].loc(),
-                 holds=True)
-
-
-def r3_arms(chk, fx, t, body):
-    fn = "task::Loop::start"
-    # signal registrations: let X = signal(SignalKind::kind())..?;
-    sigs = {}
-    for s in T.walk(body):
-        if s.get("k") == "LetStmt" and s.get("init") is not None:
-            txt = norm(T.expr_str(s["init"]))
-            for kind in ("interrupt", "terminate", "hangup"):
-                if "unix::signal(SignalKind::%s())" % kind in txt:
-                    sigs[T.pat_str(s["pat"])] = (kind, txt.endswith("?"), s)
-    for kind in ("interrupt", "terminate", "hangup"):
-        got = [(n, v) for n, v in sigs.items() if v[0] == kind]
-        chk.instance("C19/R3", "handler for SignalKind::%s() registered and `?`-checked" % kind, t["def"],
-                     loc_of(got[0][1][2].get("sp")) if got else None, holds=len(got) == 1 and got[0][1][1],
-                     key="C19/R3 %s signal-registration %s" % (fn, kind))
-    # select! futures tuple and output match
-    tuples = [s for s in T.walk(body) if s.get("k") == "LetStmt" and T.pat_str(s["pat"]) == "futures" and T.peel(s["init"]).get("k") == "Tuple"]
-    if len(tuples) != 1:
-        raise F.AnchorLost("Loop::start: select! futures tuple not found")
-    futs = [norm(T.expr_str(x)) for x in T.peel(tuples[0]["init"])["fields"]]
-    om = [m for m in T.find(body, "Match") if any(T.pat_str(a["pat"]).startswith("Out::_0") for a in m["arms"])]
-    if len(om) != 1:
-        raise F.AnchorLost("Loop::start: select! output match not found")
-    arms = {}
-    for a in om[0]["arms"]:
-        p = T.pat_str(a["pat"])
-        if p.startswith("Out::_"):
-            arms[int(p[6:].split("(")[0])] = a
-    chk.floor("C19/R3 select! arms", len(arms), 4)
-    # the loop the select! sits in
-    for i, f in enumerate(futs):
-        a = arms.get(i)
-        if a is None:
-            chk.instance("C19/R3", "select! branch %d has an arm" % i, t["def"], None, holds=False, key="C19/R3 %s missing-arm %d" % (fn, i))
+def select_sources(p):
+    """The futures given to select!, in order: the future-creating calls between the start of the iteration and the poll."""
+    out = []
+    for e in p.trace:
+        if e[0] != "call":
             continue
-        seq = stmts_of(a["body"])
-        last = T.peel(seq[-1]) if seq else {}
-        txt = norm(T.expr_str(a["body"]))
-        if f.startswith("Signal::recv("):
-            var = f[len("Signal::recv("):-1]
-            kind = sigs.get(var, (None,))[0]
-            if kind in ("interrupt", "terminate"):
-                ok = last.get("k") == "Break" and norm(T.expr_str(last.get("value"))) == "Result::Ok(())"
-                chk.instance("C19/R3", "%s (%s) arm ends with `break Ok(())`" % (var, kind), t["def"], loc_of(a.get("sp")), holds=ok,
-                             key="C19/R3 %s %s-arm-exit" % (fn, kind))
-            elif kind == "hangup":
-                ok = "Interval::reset_immediately(interval)" in txt and not T.find(a["body"], "Break") and not T.find(a["body"], "Return")
-                chk.instance("C19/R3", "%s (hangup) arm calls interval.reset_immediately() and keeps looping" % var, t["def"],
-                             loc_of(a.get("sp")), holds=ok, key="C19/R3 %s hangup-arm" % fn)
-            else:
-                chk.instance("C19/R3", "select! branch on unknown signal %s" % var, t["def"], loc_of(a.get("sp")), holds=False,
-                             key="C19/R3 %s unknown-signal-branch" % fn)
-        elif f == "Interval::tick(interval)":
-            ok = "Updater::run(" in txt and "task::handle_task(tokio::spawn(job))" in txt
-            chk.instance("C19/R3", "tick arm runs one updater job and awaits it", t["def"], loc_of(a.get("sp")), holds=ok,
-                         key="C19/R3 %s tick-arm" % fn)
+        s2 = T.short(e[1], 2)
+        if s2 == "Signal::recv":
+            recv = A.vstr(e[2][0])
+            kind = next((k for k in SIG_KINDS if "SignalKind::%s()" % k in recv), "?")
+            out.append("signal:" + kind)
+        elif s2 == "Interval::tick":
+            out.append("tick")
+        elif s2.startswith("poll_fn"):
+            break
+    return out
+
+
+def classify(paths):
+    """{source: [paths]} by the select! outcome each path assumed."""
+    out = {}
+    for p in paths:
+        k = None
+        for key, v in p.assume.items():
+            if key.startswith("variant:poll_fn") and isinstance(v, str) and re.match(r"^_\d+$", v):
+                k = int(v[1:])
+        if k is None:
+            continue
+        src = select_sources(p)
+        out.setdefault(src[k] if k < len(src) else "?%d" % k, []).append(p)
+    return out
+
+
+def const_secs(fx, v):
+    """Seconds of a constant that is `Duration::from_secs(N)` (through one level of constant-to-constant reference)."""
+    for _ in range(3):
+        if not (isinstance(v, tuple) and v[0] == "const"):
+            return None
+        t = fx.thir.get(v[1])
+        if t is None:
+            return None
+        b = T.peel(T.norm(t["body"]))
+        if b.get("k") == "Call" and T.short(b.get("fn", ""), 2) == "Duration::from_secs":
+            a = T.peel(b["args"][0])
+            return a.get("v") if a.get("k") == "Lit" else None
+        if b.get("k") in ("Const",):
+            v = ("const", b["def"])
+            continue
+        return None
+    return None
+
+
+def job_result(p):
+    for key, v in p.assume.items():
+        if key.startswith("variant:") and ("handle_task" in key or "JoinHandle" in key or "spawn" in key) and v in ("Ok", "Err"):
+            return v
+    return None
+
+
+def r1_equations(chk, fx, t, paths, outcomes):
+    fn = "task::Loop::start"
+    ticks = outcomes.get("tick", [])
+    oks = [p for p in ticks if job_result(p) == "Ok"]
+    errs = [p for p in ticks if job_result(p) == "Err"]
+    chk.instance("C19/R1", "the timer outcome distinguishes a successful and a failed job (%d / %d paths)" % (len(oks), len(errs)), t["def"], loc_of(t.get("sp")),
+                 holds=bool(oks) and bool(errs) and len(oks) + len(errs) == len(ticks), key="C19/R1 %s unexpected-arm" % fn)
+    # the loop-carried delay = the variable whose pre-iteration value is handed to reset_after
+    delay_vars = set()
+    after_ok = True
+    for p in errs:
+        ra = p.calls("Interval::reset_after")
+        if len(ra) != 1:
+            after_ok = False
+            continue
+        d = ra[0][2][1] if len(ra[0][2]) > 1 else None
+        if d is not None and d[0] == "sym" and d[1].startswith("loop:"):
+            delay_vars.add(d[1][5:])
         else:
-            chk.instance("C19/R3", "select! branch %s is not audited" % f, t["def"], loc_of(a.get("sp")), holds=False,
-                         key="C19/R3 %s unaudited-branch %s" % (fn, f[:40]))
-    want = {"interrupt", "terminate", "hangup"}
-    have = {sigs.get(f[len("Signal::recv("):-1], (None,))[0] for f in futs if f.startswith("Signal::recv(")}
-    chk.instance("C19/R3", "select! waits on SIGINT, SIGTERM, SIGHUP and the timer", t["def"], None,
-                 holds=want <= have and "Interval::tick(interval)" in futs, key="C19/R3 %s select-sources" % fn)
-    # no precondition disables a branch (`if` guards in select!)
-    dis = [s for s in T.walk(body) if s.get("k") == "If" and norm(T.expr_str(s["cond"])) not in ("Not(true)", "false")
-           and "disabled" in norm(T.expr_str(s.get("then")))]
-    chk.instance("C19/R3", "no select! branch has a disabling precondition", t["def"], None, holds=not dis,
-                 key="C19/R3 %s branch-precondition" % fn)
+            after_ok = False
+    chk.instance("C19/R1", "job Err: interval.reset_after(<the loop-carried delay>) — exactly once", t["def"], loc_of(t.get("sp")),
+                 holds=after_ok and len(delay_vars) == 1, key="C19/R1 %s err-arm-reset_after" % fn)
+    chk.instance("C19/R1", "job Err: the delay uses the pre-update back-off (the value the variable had when the iteration began)", t["def"], loc_of(t.get("sp")),
+                 holds=after_ok and len(delay_vars) == 1, key="C19/R1 %s err-arm-order" % fn,
+                 detail=None if after_ok else "reset_after is given something else than the variable's value from before the update")
+    var = next(iter(delay_vars)) if len(delay_vars) == 1 else None
+    # initial value: a constant equal to 60 s (the variable's `let` before the loop)
+    init = None
+    body = T.user_body(t)
+    for s in T.walk(body):
+        if s.get("k") == "LetStmt" and var is not None and T.pat_str(s["pat"]) == var and s.get("init") is not None:
+            i0 = T.peel(s["init"])
+            init = ("const", i0["def"]) if i0.get("k") == "Const" else None
+    secs0 = const_secs(fx, init)
+    chk.instance("C19/R1", "initial back-off is a constant (%s)" % (A.vstr(init) if init else None), t["def"], loc_of(t.get("sp")), holds=init is not None,
+                 key="C19/R1 %s initial-backoff" % fn)
+    chk.instance("C19/R1", "that constant = Duration::from_secs(60)  (got %s s)" % secs0, init[1] if init else t["def"], None, holds=secs0 == 60,
+                 key="C19/R1 MIN_BACKOFF-value")
+    il = fx.thir_body(AGENT + "::task::Updater::<T>::init_loop")
+    r = A.Interp(fx, crates=(AGENT,)).explore(AGENT + "::task::Updater::<T>::init_loop", args=[("sym", "SELF"), ("sym", "FREQ")])
+    per = A.fields_of(r[0].ret).get("period") if len(r) == 1 else None
+    itf = fx.fn_item(AGENT + "::task::Updater::<T>::init_loop")
+    ok = per is not None and A.vstr(per) == "Duration::from_secs(«FREQ»)" and "NonZero<u64>" in itf["inputs"][1]
+    chk.instance("C19/R1", "period = Duration::from_secs(frequency), frequency: NonZeroU64 (%s)" % (A.vstr(per) if per else None), il["def"], loc_of(il.get("sp")),
+                 holds=ok, key="C19/R1 period-definition")
+    # job Ok
+    ok_reset = all(len(p.calls("Interval::reset")) >= 1 and not p.calls("Interval::reset_after") for p in oks)
+    chk.instance("C19/R1", "job Ok: interval.reset() (normal period restored)", t["def"], loc_of(t.get("sp")), holds=bool(oks) and ok_reset,
+                 key="C19/R1 %s ok-arm-reset" % fn)
+    ok_set = bool(oks) and var is not None
+    for p in oks:
+        asg = p.assigns(var) if var else []
+        ok_set = ok_set and len(asg) == 1 and asg[0][2] == init
+    chk.instance("C19/R1", "job Ok: back-off = the initial constant again", t["def"], loc_of(t.get("sp")), holds=ok_set, key="C19/R1 %s ok-arm-backoff" % fn)
+    # job Err update
+    upd_ok, detail = bool(errs) and var is not None, None
+    for p in errs:
+        asg = p.assigns(var) if var else []
+        if len(asg) != 1:
+            upd_ok, detail = False, "%d assignments" % len(asg)
+            continue
+        v = asg[0][2]
+        detail = A.vstr(v)
+        upd_ok = upd_ok and is_capped_growth(v, var)
+    chk.instance("C19/R1", "job Err: back-off = min(self.period, previous * k), k >= 2 (grows, capped by the period): %s" % detail, t["def"], loc_of(t.get("sp")),
+                 holds=upd_ok, key="C19/R1 %s err-arm-update" % fn, detail=detail)
+    stray = [p for p in paths if var and p.assigns(var) and p not in oks and p not in errs]
+    chk.instance("C19/R1", "the back-off is assigned only when a job has finished", t["def"], None, holds=var is not None and not stray,
+                 key="C19/R1 %s stray-backoff-assignment" % fn)
+
+
+def is_capped_growth(v, var):
+    """min(self.period, «loop:var» * k) with k >= 2, in either argument order (cmp::min / Ord::min)."""
+    if not (v[0] == "term" and T.short(v[1], 2) in ("cmp::min", "Ord::min") and len(v[2]) == 2):
+        return False
+    a, b = v[2]
+    for cap, grow in ((a, b), (b, a)):
+        if cap[0] == "field" and cap[2] == "period" and "self" in A.vstr(cap[1]):
+            k, base = None, None
+            if grow[0] == "term" and T.short(grow[1], 2) == "Mul::mul" and len(grow[2]) == 2:
+                base, k = grow[2]
+                if base[0] == "lit":
+                    base, k = k, base
+            elif grow[0] == "bin" and grow[1] == "Mul":
+                base, k = grow[2], grow[3]
+                if base[0] == "lit":
+                    base, k = k, base
+            if base == ("sym", "loop:" + var) and k is not None and k[0] == "lit" and isinstance(k[1], int) and k[1] >= 2:
+                return True
+    return False
+
+
+def r2_reset(chk, t, outcomes):
+    ticks = outcomes.get("tick", [])
+    bad = [p for p in ticks if not (p.calls("Interval::reset") or p.calls("Interval::reset_after") or p.calls("Interval::reset_at"))]
+    chk.instance("C19/R2", "every path from job completion to the next interval.tick() resets the timer (%d timer-outcome paths)" % len(ticks), t["def"],
+                 loc_of(t.get("sp")), holds=bool(ticks) and not bad, key="C19/R2 task::Loop::start tick-without-reset",
+                 detail="with the default burst behaviour a long job would otherwise be followed by an immediate run")
+    one = all(len(p.calls("tokio::spawn")) + len(p.calls("task::spawn")) == 1 for p in ticks)
+    chk.instance("C19/R2", "at most one job is in flight (the timer outcome spawns one job and awaits it before going round)", t["def"], loc_of(t.get("sp")),
+                 holds=bool(ticks) and one and all(p.end == "iter-end" for p in ticks), key="C19/R2 task::Loop::start job-not-awaited")
+
+
+def r3_outcomes(chk, fx, t, paths, outcomes):
+    fn = "task::Loop::start"
+    # registrations: each SignalKind registered once, before the loop, and a failure fails start()
+    for kind in SIG_KINDS:
+        fail = [p for p in paths if any(k.startswith("variant:unix::signal(SignalKind::%s())" % kind) and v == "Err" for k, v in p.assume.items())]
+        reg = [p for p in paths if any(k.startswith("variant:unix::signal(SignalKind::%s())" % kind) and v == "Ok" for k, v in p.assume.items())]
+        ok = bool(fail) and bool(reg) and all(p.end == "return" and A.is_res(p.ret) and p.ret[2] == "Err" and not p.calls("Interval::tick") for p in fail)
+        chk.instance("C19/R3", "handler for SignalKind::%s() registered before the loop and `?`-checked" % kind, t["def"], loc_of(t.get("sp")), holds=ok,
+                     key="C19/R3 %s signal-registration %s" % (fn, kind))
+    for kind in ("interrupt", "terminate"):
+        ps = outcomes.get("signal:" + kind, [])
+        ok = bool(ps) and all(p.end in ("fallthrough", "return") and A.vstr(p.ret) == "Ok(())" for p in ps)
+        chk.instance("C19/R3", "SIG%s outcome leaves the loop with Ok(())" % ("INT" if kind == "interrupt" else "TERM"), t["def"], loc_of(t.get("sp")), holds=ok,
+                     key="C19/R3 %s %s-arm-exit" % (fn, kind))
+    ps = outcomes.get("signal:hangup", [])
+    ok = bool(ps) and all(p.end == "iter-end" and len(p.calls("Interval::reset_immediately")) == 1 for p in ps)
+    chk.instance("C19/R3", "SIGHUP outcome calls interval.reset_immediately() and keeps looping", t["def"], loc_of(t.get("sp")), holds=ok,
+                 key="C19/R3 %s hangup-arm" % fn)
+    ps = outcomes.get("tick", [])
+    ok = bool(ps) and all(p.calls("Updater::run") or any(e[0] == "enter" and e[1].endswith("::run") for e in p.trace) for p in ps)
+    chk.instance("C19/R3", "timer outcome runs one updater job and awaits it", t["def"], loc_of(t.get("sp")), holds=ok, key="C19/R3 %s tick-arm" % fn)
+    want = {"signal:interrupt", "signal:terminate", "signal:hangup", "tick"}
+    chk.instance("C19/R3", "select! waits on SIGINT, SIGTERM, SIGHUP and the timer (%s)" % sorted(outcomes), t["def"], None,
+                 holds=want <= set(outcomes) and not [k for k in outcomes if k.startswith("?") or k == "signal:?"], key="C19/R3 %s select-sources" % fn)
+    # no precondition disables a branch: in the macro expansion a precondition shows as a condition that is not the literal `true`
+    body = T.user_body(t)
+    dis = []
+    for s in T.walk(body):
+        if s.get("k") == "If" and (s.get("sp") or {}).get("m", "").endswith("select"):
+            c = T.expr_str(s["cond"]).replace(" ", "")
+            if "disabled" in T.expr_str(s.get("then")).replace(" ", "") and c not in ("Not(true)", "false", "!true"):
+                dis.append(c)
+    chk.instance("C19/R3", "no select! branch has a disabling precondition", t["def"], None, holds=not dis, key="C19/R3 %s branch-precondition" % fn)
 
 
 def r4_frequency(chk, fx):
-    t = fx.thir_body("<" + AGENT + "::cli::Frequency as std::convert::From<u64>>::from")
-    s = norm(T.expr_str(T.user_body(t)))
-    ok = s in ("Result::map_or(TryInto::try_into(freq),Frequency::OneShot,Frequency::Daemon)",
-               "{Result::map_or(TryInto::try_into(freq),Frequency::OneShot,Frequency::Daemon)}")
+    fr = "<" + AGENT + "::cli::Frequency as std::convert::From<u64>>::from"
+    t = fx.thir_body(fr)
+    paths = A.Interp(fx, crates=(AGENT,)).explore(fr)
+    ok = len(paths) == 2
+    for p in paths:
+        tv = [(k, v) for k, v in p.assume.items() if k.startswith("variant:TryInto::try_into(«param:freq»)") or k.startswith("variant:TryFrom::try_from(«param:freq»)")]
+        if len(tv) != 1:
+            ok = False
+            continue
+        if tv[0][1] == "Ok":
+            ok = ok and p.ret[0] == "adt" and p.ret[2] == "Daemon" and "→Ok.0" in A.vstr(p.ret)
+        else:
+            ok = ok and p.ret[0] == "adt" and p.ret[2] == "OneShot"
     it = [i for i in fx.item_list if i["kind"] in ("Enum",) and i["def"] == AGENT + "::cli::Frequency"]
     nz = bool(it) and any("NonZero<u64>" in f["ty"] for v in it[0]["variants"] if v["name"] == "Daemon" for f in v["fields"])
-    chk.instance("C19/R4", "Frequency::from(n) = n.try_into::<NonZeroU64>().map_or(OneShot, Daemon)  (0 => OneShot)", t["def"], loc_of(t.get("sp")),
-                 holds=ok and nz, key="C19/R4 Frequency::from", detail=None if ok else s)
-    m = fx.thir_body(AGENT + "::cli::main::{closure#0}")
-    body = T.user_body(m)
-    fm = [x for x in T.find(body, "Match") if norm(T.expr_str(x["scrut"])) == "args.frequency"]
-    chk.floor("C19/R4 frequency dispatch sites in main", len(fm), 2)
-    for x in fm:
-        for a in x["arms"]:
-            p = T.pat_str(a["pat"])
-            txt = norm(T.expr_str(a["body"]))
-            if p == "Frequency::OneShot":
-                ok = txt == "Updater::run(updater).await"
-            elif p.startswith("Frequency::Daemon("):
-                ok = txt == "Loop::start(Updater::init_loop(updater,frequency)).await"
+    chk.instance("C19/R4", "Frequency::from(n): NonZeroU64::try_from(n) Ok(f) => Daemon(f), Err (n = 0) => OneShot", t["def"], loc_of(t.get("sp")),
+                 holds=ok and nz, key="C19/R4 Frequency::from", detail="; ".join(A.vstr(p.ret) for p in paths))
+    mn = AGENT + "::cli::main::{closure#0}"
+    m = fx.thir_body(mn)
+    FREQ = AGENT + "::cli::Frequency"
+
+    for variant in ("OneShot", "Daemon"):
+        def hook(fn, args, node, interp, variant=variant):
+            s2 = T.short(fn, 2)
+            if s2 in ("Parser::parse", "Cli::parse"):
+                return None
+            return None
+        itp = A.Interp(fx, hook=hook, crates=(AGENT,), max_paths=3000,
+                       no_inline=("Updater::<T>::run", "Loop::<T>::start", "LoggingOpts", "tracing", "Local::new", "Remote::new", "Updater::<T>::new"))
+        itp.model_iterators = False
+        try:
+            paths = itp.explore(mn)
+        except A.Undecided as ex:
+            chk.instance("C19/R4", "main could not be explored", mn, None, holds=False, key="C19/R4 main undecided", detail=str(ex))
+            return
+        sel = [p for p in paths if any(k.startswith("variant:") and k.endswith(".frequency") and v == variant for k, v in p.assume.items())
+               or any(k.startswith("variant:") and "frequency" in k and v == variant for k, v in p.assume.items())]
+        targets = {"local": [], "remote": []}
+        for p in sel:
+            which = "remote" if any(e[0] in ("call", "enter") and "Remote" in e[1] for e in p.trace) else "local"
+            targets[which].append(p)
+        for which, ps in sorted(targets.items()):
+            if variant == "OneShot":
+                ok = bool(ps) and all(p.calls("Updater::run") and not p.calls("Loop::start") and not p.calls("Updater::init_loop") for p in ps)
+                what = "runs the updater once"
             else:
-                ok = False
-            chk.instance("C19/R4", "main: %s => %s" % (p, txt), m["def"], loc_of(a.get("sp")), holds=ok, key="C19/R4 main dispatch %s" % p.split("(")[0])
+                ok = bool(ps)
+                for p in ps:
+                    st = p.calls("Loop::start")
+                    okp = len(st) == 1 and not p.calls("Updater::run")
+                    if okp:
+                        lp = st[0][2][0]
+                        okp = A.mentions(lp, lambda x: x[0] == "payload" and x[2] == "Daemon") or "Daemon" in A.vstr(lp)
+                    ok = ok and okp
+                what = "runs init_loop(f).start() with the Daemon's own f"
+            chk.instance("C19/R4", "main (%s target): Frequency::%s %s (%d paths)" % (which, variant, what, len(ps)), mn, loc_of(m.get("sp")), holds=ok,
+                         key="C19/R4 main dispatch Frequency::%s" % variant)
